@@ -1,12 +1,12 @@
 (** C16 — empirical CDF / quantile toolkit obeys the laws of distribution functions.
     Property theorems only (model: Model/Ecdf.v, tied to utils/_math_utils.py by correspondence K4).
-    Proved for ecdf methods step_function and linear_interpolation, and for iecdf methods
-    inverted_cdf (ibicus' IECDF), interpolated_inverted_cdf, hazen, weibull, linear,
-    median_unbiased, normal_unbiased (14 method pairs), for samples of ANY size, ties allowed.
-    PARTIAL: NumPy's averaged_inverted_cdf / closest_observation and the histogram CDF are
-    modelled and correspondence-checked but their laws are only searched on the implementation. *)
+    Proved for ecdf methods step_function and linear_interpolation and for ALL nine iecdf methods
+    (ibicus' inverted_cdf, NumPy's six continuous and two discrete ones), for samples of ANY size,
+    ties allowed; and for the histogram ECDF (kernel_density) given ANY non-decreasing bin edges and
+    non-negative counts.  PARTIAL: NumPy's choice of bin edges (np.histogram(bins="auto")) is an input of
+    the model, not modelled; that is where the recorded finding D16 lives. *)
 From Coq Require Import QArith List ZArith.
-From IV Require Import QL Ecdf QFacts C16_step C16_lerp C16_interp C16_compose.
+From IV Require Import QL Ecdf QFacts C16_step C16_lerp C16_interp C16_compose C16_hist.
 Import ListNotations.
 Open Scope Q_scope.
 
@@ -77,6 +77,29 @@ Theorem C16_equal_size_rank_transfer : forall s k, (1 <= k <= zlen s)%Z ->
 Proof. exact equal_size_rank_transfer. Qed.
 Print Assumptions C16_equal_size_rank_transfer.
 
+(** the hypothesis [proved_iecdf m] of the theorems above holds for EVERY supported inverse-CDF method:
+    ibicus' own inverted_cdf, NumPy's six continuous methods and its two discrete ones
+    (averaged_inverted_cdf, closest_observation: Proofs/C16_discrete.v) *)
+Theorem C16_every_iecdf_method_covered : forall m, proved_iecdf m.
+Proof. exact every_iecdf_method_proved. Qed.
+Print Assumptions C16_every_iecdf_method_covered.
+
+(** histogram ECDF, for any non-decreasing edges and non-negative counts with a positive total *)
+Theorem C16_ecdf_hist_range : forall edges counts, sortedQ edges -> Forall (fun c => 0 <= c) counts ->
+  length edges = S (length counts) -> 0 < QL.qsum counts -> forall y, 0 <= ecdf_hist edges counts y <= 1.
+Proof. exact ecdf_hist_range. Qed.
+Print Assumptions C16_ecdf_hist_range.
+
+Theorem C16_ecdf_hist_mono : forall edges counts, sortedQ edges -> Forall (fun c => 0 <= c) counts ->
+  length edges = S (length counts) -> 0 < QL.qsum counts -> forall y1 y2, y1 <= y2 -> ecdf_hist edges counts y1 <= ecdf_hist edges counts y2.
+Proof. exact ecdf_hist_mono. Qed.
+Print Assumptions C16_ecdf_hist_mono.
+
+Theorem C16_ecdf_hist_at_last_edge : forall edges counts, Forall (fun c => 0 <= c) counts ->
+  length edges = S (length counts) -> 0 < QL.qsum counts -> forall y, (forall e, In e edges -> e <= y) -> ecdf_hist edges counts y == 1.
+Proof. exact ecdf_hist_at_last_edge. Qed.
+Print Assumptions C16_ecdf_hist_at_last_edge.
+
 (** recorded finding D16 (known_findings.json): the histogram ECDF of an all-equal sample is 1/2,
     not 1, at the sample maximum (NumPy's edges for x = [29/8]*4 are [25/8, 33/8], counts [4]) *)
 Theorem C16_hist_at_max_constant_sample_refuted :
@@ -90,4 +113,4 @@ Example C16_nonvacuous :
   proved_ecdf linear_interpolation /\ proved_iecdf linear /\ x <> [] /\
   Qred (ecdf step_function x (QL.qmax x)) = 1 /\ Qred (iecdf linear x (1 # 2)) = 3 # 2 /\
   Qred (qmap step_function inverted_cdf x [10; 20; 30; 40; 50; 60] 2) = 50.
-Proof. vm_compute. repeat split; try (right; reflexivity); try discriminate; try (right; exact I). Qed.
+Proof. cbv zeta. repeat split; try (right; reflexivity); try discriminate; try apply every_iecdf_method_proved; vm_compute; reflexivity. Qed.
